@@ -79,6 +79,10 @@ class Prop(core.Prop):
         # header flag variants and sub-hourly (20-minute) time blocks
         for flags in ((0, 1), (1, 0), (0, 0)):
             yield dict(group, layers='2+3', start=[1, 1, 1], tables='complete', flags=list(flags))
+        if (group['nt'], group['ncat'], group['ntr']) == (1, 1, 1):
+            for lp in ('1', '2', '3'):
+                for sw in (1, 2):
+                    yield dict(group, layers=lp, start=[1, 1, 1], tables='complete', slotswap=sw)
         for lp in ('1', '2+3'):
             yield dict(group, layers=lp, start=[1, 1, 1], tables='complete', reserved=True)
             yield dict(group, layers=lp, start=[13, 50, 1], tables='complete', reserved=True, dt=3)
@@ -165,7 +169,68 @@ class Prop(core.Prop):
                                % (kk, got, (cat, num - off)), **scope))
         return vs
 
+    def run_slotswap(self, case):
+        """two time blocks of identical layout whose single slot holds tracer 1 first and tracer 2 afterwards: a
+        reader either refuses the file or presents each tracer with exactly the blocks the file holds for it"""
+        P = lib.pnc()
+        ni, nj, nl = 5, 4, int(case['layers'])
+        mk = lambda tr, t, s_: dict(category='IJ-AVG-$', tracer=tr, unit='v/v', tau0=175343.0 + t, tau1=175344.0 + t,
+                                    reserved='', start=(1, 1, 1),
+                                    data=(1e-9 * (1 + np.arange(nl * nj * ni) + s_)).reshape(nl, nj, ni).astype('f4'))
+        blocks = [[mk(1, 0., 0)], [mk(2, 1., 500)]]
+        if case['slotswap'] == 2:
+            blocks = [[mk(1, 0., 0), mk(2, 0., 100)], [mk(2, 1., 500), mk(1, 1., 600)]]
+        raw = rf.enc_bpch(dict(ftype='CTM bin 02', toptitle='GEOS-CHEM binary punch file v. 2.0', modelname='GEOS5_47L',
+                               modelres=(2.5, 2.0), halfpolar=1, center180=1, blocks=blocks))
+        self.ncase = getattr(self, 'ncase', 0) + 1
+        if getattr(self, 'lastdir', None):
+            shutil.rmtree(self.lastdir, True)
+        d = self.lastdir = os.path.join(self.tmp, 'c_%d_%d' % (os.getpid(), self.ncase))
+        shutil.rmtree(d, True)
+        os.makedirs(d)
+        path = os.path.join(d, 'ref.bpch')
+        with open(path, 'wb') as fh:
+            fh.write(raw)
+        with open(os.path.join(d, 'tracerinfo.dat'), 'w') as fh:
+            fh.write('# reference tracerinfo\n')
+            for off in (0, 1000):
+                for num, name, scale, unit in TRACERS[off]:
+                    fh.write(rf.tracerinfo_line(name, name + ' tracer', 2.8e-2, 1, num, scale, unit) + '\n')
+        with open(os.path.join(d, 'diaginfo.dat'), 'w') as fh:
+            fh.write('# reference diaginfo\n')
+            for cat, off in CATS:
+                fh.write(rf.diaginfo_line(off, cat, 'category ' + cat) + '\n')
+        held = {}
+        for blk in blocks:
+            for b in blk:
+                held.setdefault({1: 'IJ-AVG-$_NOx', 2: 'IJ-AVG-$_Ox'}[b['tracer']], []).append(b['data'])
+        vs, ntrans = [], 0
+        scope = dict(nt=2, ncat=1, ntr=len(blocks[0]), layers=case['layers'], nested=False, tables='complete',
+                     subhourly=False, flags='11', revtime=False, reserved=False, slotswap=case['slotswap'])
+        for entry in ('bpch1', 'bpch', 'bpch2'):
+            try:
+                with quiet():
+                    f = P.pncopen(path, format=entry, noscale=True)
+                ntrans += 1
+                for kk, blks in held.items():
+                    if kk not in f.variables.keys():
+                        vs.append(viol('variable-missing', (entry, 'slot-swap'), '%s not presented (%r)' % (
+                            kk, [k_ for k_ in f.variables.keys() if '$' in k_]), reader=entry, **scope))
+                        continue
+                    got = np.asarray(f.variables[kk][...])
+                    want = np.array(blks)
+                    if got.shape != want.shape or got.astype('f4').tobytes() != want.tobytes():
+                        vs.append(viol('blocks-misattributed', (entry, 'slot-swap'),
+                                       '%s presented with shape %r; the file holds %d block(s) of it'
+                                       % (kk, got.shape, len(blks)), reader=entry, **scope))
+            except Exception:
+                continue      # refusing such a file is fine
+        return result('viol' if vs else 'ok', vs, [h64(raw)], ntrans, h64('slot', sorted(case.items(), key=str)),
+                      h64(raw) if not vs else None)
+
     def run_one(self, case):
+        if case.get('slotswap'):
+            return self.run_slotswap(case)
         P = lib.pnc()
         from PseudoNetCDF.pncgen import pncgen
         r, vars_ = self.recipe(case)
